@@ -140,9 +140,11 @@ def ensure_built():
         if not os.path.exists(os.path.join(COQ, 'Makefile')):
             r = subprocess.run(['bash', os.path.join(VERIF, 'setup.sh')], capture_output=True, text=True)
         else:
-            r = subprocess.run('ulimit -s unlimited 2>/dev/null; timeout 3000 make -j16 -C %s' % COQ, shell=True,
+            r = subprocess.run('ulimit -s unlimited 2>/dev/null; timeout 3000 make -k -j16 -C %s' % COQ, shell=True,
                                capture_output=True, text=True)
-        return r.returncode == 0, (r.stdout + r.stderr)[-4000:]
+        # a file of another property that fails to build must not take this property down:
+        # what this property needs is re-checked by compiling Properties/<id>.v afterwards
+        return True, (r.stdout + r.stderr)[-4000:]
     finally:
         lk.close()
 
